@@ -343,3 +343,49 @@ for _p in ("C08", "C13"):
     SPECS[_p].thorough_extra = SPECS[_p].thorough_extra + errgroup_extra(_p)
     SPECS[_p].assumptions = SPECS[_p].assumptions + ERRGROUP_ASSUME
     SPECS[_p].modelled = SPECS[_p].modelled + ["golang.org/x/sync/errgroup (third-party, pinned by /repo/go.mod): Model/Errgroup.v, written by hand from errgroup.go, tied by stage errgroup"]
+
+
+# Group R: the primitives under the sshd / syslog models, tied function by function (stage harness/prims, both tiers).
+#   regex part  (C06; also C11 C17): the package's own compiled patterns (accessor VerifRegexes, cross-checked against the var
+#                declarations of openssh_regex.go) - FindStringSubmatchIndex + MatchString on texts generated from each pattern's
+#                structure, all indices compared in Coq with find_idx / Lib.Regex.find / matches on the regenerated
+#                Gen/SshdRegexes.v entry of the same name (Model/PrimsCheck.v)
+#   strings part (C07): every Lib/GoStrings.v function against package strings, atoi against strconv.Atoi
+PRIMS_OVERLAY = {"processors/sshd/verif_export.go": "harness/overlay/sshd_regex_verif.go"}
+
+
+def prims_regex(pid, n_quick=60, n_thorough=900):
+    return [("prims", PRIMS_OVERLAY, ["-mode", "regex", "-prop", pid, "-n", str(n_thorough)], False,
+             ["-mode", "regex", "-prop", pid, "-n", str(n_quick)])]
+
+
+def prims_strings(pid, n_quick=40, n_thorough=600):
+    return [("prims", PRIMS_OVERLAY, ["-mode", "strings", "-prop", pid, "-n", str(n_thorough)], False,
+             ["-mode", "strings", "-prop", pid, "-n", str(n_quick)])]
+
+
+PRIMS_REGEX_ASSUME = [
+    "the matcher is no longer only 'the textbook backtracking matcher': Lib.Regex.find is PROVED, for every item list, text and start offset, sound, complete and "
+    "priority-correct against a declarative leftmost-first / greedy semantics (Model/RegexSpec.v: Parse, lex_ge, Best; theorems C06_regex_* in Props/C06.v); what stays "
+    "assumed is that Go's regexp implements that semantics for these flat patterns - now exercised directly: stage prims -mode regex calls FindStringSubmatchIndex and "
+    "MatchString of the package's own compiled patterns on texts generated from each pattern's structure and compares ALL indices with the model in Coq",
+    "bytes vs runes, made precise: a pattern is rune-safe (Model/RegexSpec.v rune_safe, recomputed in Coq for every pattern on every run) when every class holds all or "
+    "none of the bytes >= 0x80, every single-byte item over an all-high class is the head of x+ and every greedy star over one is followed by an ASCII literal, an "
+    "ASCII-only class byte, $ or the pattern's end; for such patterns the comparison runs on ALL texts (multi-byte runes, invalid UTF-8, NUL); for the others "
+    "on ASCII texts only, the rest being counted as outside the domain",
+]
+PRIMS_STRINGS_ASSUME = [
+    "Lib/GoStrings.v and Model/SshdProc.atoi are tied function by function to package strings / strconv.Atoi (stage prims -mode strings) and characterised by the "
+    "C07_strings_* theorems (first occurrence, split/join round trip, piece count, cut, prefix/suffix, trim, strict total byte order, arithmetic mod 2^64 / 2^32, "
+    "atoi s = Some z <-> sign-and-digits syntax with value z in the int64 range); domain guards carried by the cases: Split for a non-empty separator (Go splits "
+    "into UTF-8 sequences otherwise), TrimLeft for an ASCII cutset",
+]
+for _p in ("C06", "C11", "C17"):
+    SPECS[_p].thorough_extra = SPECS[_p].thorough_extra + prims_regex(_p, 60 if _p == "C06" else 25, 900 if _p == "C06" else 300)
+    SPECS[_p].assumptions = SPECS[_p].assumptions + PRIMS_REGEX_ASSUME
+    SPECS[_p].modelled = SPECS[_p].modelled + ["Go regexp (FindStringSubmatchIndex / MatchString) on the flat patterns: Lib/Regex.v, hand-written, PROVED against Model/RegexSpec.v, tied by stage prims -mode regex"]
+    SPECS[_p].extra_targets = SPECS[_p].extra_targets + ["Model/PrimsCheck.vo"]
+SPECS["C07"].thorough_extra = SPECS["C07"].thorough_extra + prims_strings("C07")
+SPECS["C07"].assumptions = SPECS["C07"].assumptions + PRIMS_STRINGS_ASSUME
+SPECS["C07"].modelled = SPECS["C07"].modelled + ["package strings (HasPrefix HasSuffix TrimPrefix TrimSuffix Index Cut Split Join TrimLeft), string <, indexing/slicing panics, uint64/int32 arithmetic, strconv.Atoi: Lib/GoStrings.v + Model/SshdProc.atoi, hand-written, tied by stage prims -mode strings"]
+SPECS["C07"].extra_targets = SPECS["C07"].extra_targets + ["Model/PrimsCheck.vo"]
